@@ -350,6 +350,16 @@ func fatAliasScenario(cfg fatCfg, oracle string, depth int) *fatScen {
 	return &fatScen{Name: "aliases", Cfg: cfg, Letters: l, Depth: depth, Oracle: oracle}
 }
 
+// fatBigChainScenario: a chain of 400 clusters, so that the allocation table is used far into its second and later
+// sectors (341 FAT12 / 256 FAT16 / 128 FAT32 entries per sector), then released by truncate, remove and rename-over while
+// the same filesystem object stays open: what was written to the table's later sectors must be taken back on disk too.
+func fatBigChainScenario(cfg fatCfg, oracle string, depth int) *fatScen {
+	W := func(p, off, ln string) fsOp { return fsOp{Kind: "write", Path: p, Off: off, Len: ln} }
+	l := []fsOp{W("BIG.BIN", "0", "400c"), W("S.BIN", "0", "c+1"), {Kind: "trunc", Path: "BIG.BIN"}, {Kind: "remove", Path: "BIG.BIN"}, {Kind: "rename", Path: "S.BIN", Path2: "BIG.BIN"},
+		W("second-long-name.bin", "0", "130c"), {Kind: "remove", Path: "second-long-name.bin"}, {Kind: "reopen"}}
+	return &fatScen{Name: "bigchain", Cfg: cfg, Letters: l, Depth: depth, Oracle: oracle}
+}
+
 // fatFillScenario: fill / empty / refill on small volumes, explored to fixpoint.
 func fatFillScenario(cfg fatCfg, oracle string, depth int) *fatScen {
 	W := func(p, ln string) fsOp { return fsOp{Kind: "write", Path: p, Off: "0", Len: ln} }
